@@ -32,12 +32,17 @@ def main():
     t = tier()
     only = os.environ.get('C16_ONLY')
     rep.bounds = dict(scripts='operation sequences over {compile, take_code, reset, recompile, run (program), run (code-only), emulate, free code, enter parse-error state}: quick 18 scripts x configurations, thorough all sequences of length <= 3 containing a compile',
-                      configurations='back end succeeds / refuses (no rule) / executable memory unavailable / ORC_CODE=emulate / backup function', data='emitted size and bytes symbolic')
+                      configurations='back end succeeds / fails while emitting / signals register overflow / refuses (no rule) / executable memory unavailable / ORC_CODE=emulate / backup function', data='emitted size and bytes symbolic')
     rep.assume('code memory is a ghost allocator that frees its chunk objects (a second free is a pointer-check failure); the real allocator is C09',
                'registry objects (opcode sets, rule arrays) are torn down by the harness before the leak check', 'malloc never fails', 'leaks inside the real x86 back ends are outside (stub back end)')
     b = build.Build('c16')
     js = []
     confs = [[], ['CFG_RULE=0'], ['CFG_CHUNK=0'], ['CFG_E=1'], ['CFG_BK=1', 'CFG_B=1']]
+    # a back end that fails while emitting (after the scratch buffer exists) / signals register overflow
+    for s, c in (('1', ['CFG_FAIL=1']), ('1,3,4', ['CFG_FAIL=1']), ('1,4,2,8', ['CFG_FAIL=2']), ('1,5', ['CFG_FAIL=1', 'CFG_CHUNK=2'])) if t == 'quick' else \
+            [(s_, c_) for s_ in ('1', '1,3,4', '1,4,2,8', '1,5', '1,2,4', '9,1,3,1', '1,7') for c_ in (['CFG_FAIL=1'], ['CFG_FAIL=2'], ['CFG_FAIL=1', 'CFG_CHUNK=2'], ['CFG_FAIL=1', 'CFG_BK=1'])]:
+        js.append(cbmc.Job('c16.ops%s.%s' % (s.replace(',', ''), '_'.join(x.replace('CFG_', '').replace('=', '') for x in c)), [HC] + TUS, 'h_lifecycle',
+                           defs=['INCLUDE_OPCODE_C', 'OPS=' + s] + c, unwind=130, timeout=1500 if t == 'quick' else 3000, mem_gb=12, flags=['--memory-leak-check'], funcs=FUNCS))
     for i, s in enumerate(scripts(t)):
         cs = confs if t != 'quick' else ([confs[0]] + ([confs[1 + (i + seed()) % 4]] if i % 2 == 0 else []))
         for c in cs:
